@@ -245,6 +245,12 @@ func (hc *HostConfigOptional) MergeWith(other *HostConfigOptional) {
 	if other.DataTimeout != nil {
 		hc.DataTimeout = other.DataTimeout
 	}
+	if other.InsecureSkipVerify != nil {
+		hc.InsecureSkipVerify = other.InsecureSkipVerify
+	}
+	if other.RequestAuthorization != nil {
+		hc.RequestAuthorization = other.RequestAuthorization
+	}
 }
 
 func (hc *HostConfigOptional) Unwrap() *HostConfig {
